@@ -10,15 +10,37 @@ from simfw import boot
 _SPEC_CACHE: "OrderedDict[str, object]" = OrderedDict()
 
 
-def fresh_spec(text: str, **kw):
-    """A brand-new Fandango spec object (real front end; ANTLR tree memoised per text)."""
+def split_pieces(text: str) -> list:
+    """Split a spec into top-level statements (a line plus its indented continuation lines).
+    Each piece is handed to Fandango as its own .fan "file" (Fandango merges several files),
+    so that the ANTLR parse-tree memo (keyed by text) hits for every line seen before."""
+    import io
+
+    groups: list[list[str]] = []
+    for line in text.split("\n"):
+        if not line.strip():
+            continue
+        if groups and (line[0] in " \t"):
+            groups[-1].append(line)
+        else:
+            groups.append([line])
+    files = []
+    for i, g in enumerate(groups):
+        f = io.StringIO("\n".join(g) + "\n")
+        f.name = "<piece-%d>" % i
+        files.append(f)
+    return files
+
+
+def fresh_spec(text: str, pieces: bool = True, **kw):
+    """A brand-new Fandango spec object (real front end; ANTLR tree memoised per statement)."""
     from fandango import Fandango
 
     kw.setdefault("use_stdlib", False)
     kw.setdefault("logging_level", 50)
     st = random.getstate()
     try:
-        return Fandango(text, **kw)
+        return Fandango(split_pieces(text) if pieces else text, **kw)
     finally:
         random.setstate(st)
 
